@@ -914,6 +914,12 @@ def c07_13(ctx):
     return out
 
 
+def c07_15(ctx):
+    """ALIAS: the main stack and the alt stack are two lists (and no other pair of interpreter containers is one object)"""
+    from sa.alias import alias_obligation
+    return alias_obligation(ctx, ["script", "op"], "TOALTSTACK / FROMALTSTACK move nothing, `1 TOALTSTACK` leaves a true element on the main stack")
+
+
 def c07_14(ctx):
     """Sequence.__lt__ (the relation OP_CHECKSEQUENCEVERIFY uses): two comparable relative locks are compared on the low
     16 bits only (BIP68 / BIP112: the other bits carry no lock value)"""
@@ -991,5 +997,6 @@ OBLIGATIONS = [
     ("C07.12", "RANGE", c07_12),
     ("C07.13", "CELLS nesting", c07_13),
     ("C07.14", "RELATION mask", c07_14),
+    ("C07.15", "ALIAS", c07_15),
 ]
 FLOORS = {"C07.1": 40, "C07.2": 26, "C07.3": 5, "C07.4": 2, "C07.5": 7, "C07.6": 1, "C07.7": 4, "C07.8": 2, "C07.9": 7, "C07.10": 7, "C07.11": 9, "C07.12": 4, "C07.13": 2, "C07.14": 1}
